@@ -1463,4 +1463,23 @@ theorem apiCS_wr (s : St) (cf : Cfg) (op : Op) (r : St × Res × Option Nat) (h 
     · simp at h; subst h; simp at hp
   | waitExited _ => simp [apiCS] at h
 
+theorem safeRun_append (s s1 : St) (es fs : List Ev) (h : SafeRun s (es ++ fs))
+    (hr : model.run s es = some s1) : SafeRun s es ∧ SafeRun s1 fs := by
+  induction es generalizing s with
+  | nil => simp [OLTS.run] at hr; subst hr; exact ⟨trivial, h⟩
+  | cons e es ih =>
+    simp only [OLTS.run] at hr
+    cases hst : model.step s e with
+    | none => simp [hst] at hr
+    | some s2 =>
+      simp [hst] at hr
+      have h' : SafeRun s (e :: (es ++ fs)) := h
+      obtain ⟨g1, g2⟩ := ih s2 (h'.2 s2 hst) hr
+      refine ⟨⟨h'.1, ?_⟩, g2⟩
+      intro s' hs'
+      have : s' = s2 := by
+        have e1 : model.step s e = some s' := hs'
+        rw [hst] at e1; exact (Option.some.inj e1).symm
+      subst this; exact g1
+
 end UtilModel.Routine
